@@ -1,7 +1,10 @@
 """C01 -- a failing check always fails the run: lifecycle, failure count, exit value.
 Scenario:  <cli> <rethrow> <filter> <runign> <repeat> <ntests> { <ignored> <sel> <line> <setup> <body> <teardown> <pre> <post> }
-           stmt list = <n> { :n | :c | :x <file> <line> | :j <file> <line> | :s | :o } ; pre/post = <n> { <line> }
-           (:n no-op, :c passing check, :x C++-style failing check, :j C-style (longjmp) failing check, :s throw std::runtime_error, :o throw int)
+           stmt list = <n> { <base> | :r <cond> <k> <base> <base> } ; base = :n | :c | :x <file> <line> | :j <file> <line> | :s | :o
+           pre/post = <n> { <line> | :r <cond> <k> <line> } ; cond = :eq | :ne | :lt | :ge
+           (:n no-op, :c passing check, :x C++-style failing check, :j C-style (longjmp) failing check, :s throw std::runtime_error, :o throw int;
+            ":r c k A B" = static state in the test: behaves as A in the repetitions whose number (from 0) satisfies c k, as B in the others;
+            a conditional plugin line is reported only in the matching repetitions; <repeat> is the number after -r, -r0 repeats twice)
 Observation: see harness/C01.cpp."""
 import itertools
 ID = "C01"
@@ -10,7 +13,10 @@ HARNESS_SRCS = ["harness/C01.cpp"]
 RULE = ("programs of 0-60 scripted tests, phases of 0-5 statements; every failure kind (C++-style check, C-style check, std exception, "
         "foreign exception, plugin-reported) x phase (setup, body, teardown, plugin pre/post) systematically, pairs of failing phases, "
         "runs of 12-25 consecutive failing tests of each kind x phase (beyond the 10 jump-buffer slots), interleaved with passing / ignored / "
-        "filtered-out tests, repeat 1-4, -ri, through TestRegistry::runAllTests and through CommandLineTestRunner::runAllTestsMain; "
+        "filtered-out tests, repeat 1-4 (and -r0 = twice), -ri, through TestRegistry::runAllTests and through CommandLineTestRunner::runAllTestsMain; "
+        "programs whose behaviour depends on the repetition (static state): a failure of every kind x phase only in the first / a middle / the last "
+        "of 2-4 repetitions, in all but one, from / up to a repetition, two tests failing in different repetitions, different failure kinds in "
+        "different repetitions, alone and next to ignored / filtered-out / run-ignored tests, and random programs with conditional statements; "
         "flavour noexc (-fno-exceptions) judges the programs without throw statements. "
         "non-trivial = at least one test that is started has a failing statement, an escaping exception or a plugin failure")
 ASSUMPTIONS = ["rethrowExceptions off (-e / -ci) whenever a program can throw: DESIGN C01 scope decision",
@@ -34,7 +40,17 @@ def lst(items):
 
 
 def test(ign=0, sel=1, line=100, setup=(), body=(), teardown=(), pre=(), post=()):
-    return " ".join(["%x %x %x" % (ign, sel, line), lst(setup), lst(body), lst(teardown), lst(["%x" % p for p in pre]), lst(["%x" % p for p in post])])
+    pl = lambda p: p if isinstance(p, str) else "%x" % p
+    return " ".join(["%x %x %x" % (ign, sel, line), lst(setup), lst(body), lst(teardown), lst([pl(p) for p in pre]), lst([pl(p) for p in post])])
+
+
+def rif(op, k, a, b):
+    """statement that behaves as a in the repetitions r with `r op k`, as b in the others"""
+    return ":r :%s %x %s %s" % (op, k, a, b)
+
+
+def rline(op, k, line):
+    return ":r :%s %x %x" % (op, k, line)
 
 
 def scn(tests, cli=0, rethrow=0, filt=0, runign=0, repeat=1):
@@ -44,38 +60,112 @@ def scn(tests, cli=0, rethrow=0, filt=0, runign=0, repeat=1):
 PASS = lambda: test(body=[":c", ":n"])
 
 
-def failing_test(kind, phase, rng=None, line=100):
-    """one test failing with `kind` in `phase` (0 setup, 1 body, 2 teardown, 3 plugin pre, 4 plugin post), passing statements around it"""
+def failing_test(kind, phase, rng=None, line=100, when=None, other=":c", **kw):
+    """one test failing with `kind` in `phase` (0 setup, 1 body, 2 teardown, 3 plugin pre, 4 plugin post), passing statements around it;
+    when=(op, k): only in the repetitions r with `r op k` (statement `other` in the remaining ones)"""
     ph = [[":c"], [":n", ":c"], [":c"]]
     pre, post = [], []
     if phase < 3:
         k = 0 if rng is None else rng.randrange(len(ph[phase]) + 1)
-        ph[phase] = ph[phase][:k] + [st(kind, rng, line)] + ph[phase][k:] + [":c"]
+        x = st(kind, rng, line)
+        if when is not None:
+            x = rif(when[0], when[1], x, other)
+        ph[phase] = ph[phase][:k] + [x] + ph[phase][k:] + [":c"]
     elif phase == 3:
-        pre = [7]
+        pre = [7 if when is None else rline(when[0], when[1], 7)]
     else:
-        post = [9]
-    return test(line=line, setup=ph[0], body=ph[1], teardown=ph[2], pre=pre, post=post)
+        post = [9 if when is None else rline(when[0], when[1], 9)]
+    return test(line=line, setup=ph[0], body=ph[1], teardown=ph[2], pre=pre, post=post, **kw)
 
 
-def rand_phase(rng, pfail, line, allow_throw=True):
-    n = rng.choice([0, 1, 1, 2, 2, 3, 4, 5])
+KIND_PHASE = [(k, p) for k in KINDS for p in range(3)] + [("x", 3), ("x", 4)]
+
+
+def rep_dependent(tier, rng):
+    """programs whose outcome differs from one repetition to the next"""
     out = []
-    for _ in range(n):
-        if rng.random() < pfail:
-            out.append(st(rng.choice(KINDS if allow_throw else KINDS[:2]), rng, line))
-        else:
-            out.append(rng.choice([":n", ":c", ":c"]))
+    # a failure of every kind x phase in exactly one repetition: the first, a middle one, the last
+    for R in (2, 3, 4):
+        for pos in sorted({0, R // 2, R - 1}):
+            for (kind, phase) in KIND_PHASE:
+                out.append(scn([PASS(), failing_test(kind, phase, rng, when=("eq", pos)), PASS()], cli=1, repeat=R))
+    for (kind, phase) in KIND_PHASE:
+        R = rng.choice([2, 3, 4])
+        k = rng.randrange(R)
+        # all repetitions but one fail (k = R-1: only the last one is OK); the first k fail; all from k on fail
+        out.append(scn([failing_test(kind, phase, rng, when=("ne", R - 1))], cli=1, repeat=R))
+        out.append(scn([PASS(), failing_test(kind, phase, rng, when=("ne", k))], cli=1, repeat=R))
+        out.append(scn([failing_test(kind, phase, rng, when=("lt", max(1, k))), PASS()], cli=1, repeat=R))
+        out.append(scn([failing_test(kind, phase, rng, when=("ge", max(1, k))), PASS()], cli=1, repeat=R))
+        # next to ignored and filtered-out tests; the flaky test itself ignored (never runs / runs with -ri) or filtered out (never runs)
+        pos = rng.choice([0, R - 1])
+        noise = [test(ign=1, body=[":x 0 5"]), test(sel=0, body=[":j 0 6"])]
+        out.append(scn([noise[0], failing_test(kind, phase, rng, when=("eq", pos)), noise[1]], cli=1, filt=1, repeat=R))
+        out.append(scn([noise[1], failing_test(kind, phase, rng, when=("eq", pos), ign=1), PASS()], cli=1, filt=1, repeat=R))
+        out.append(scn([PASS(), failing_test(kind, phase, rng, when=("eq", pos), ign=1), noise[1]], cli=1, filt=1, runign=1, repeat=R))
+        out.append(scn([failing_test(kind, phase, rng, when=("eq", pos), sel=0), PASS(), noise[0]], cli=1, filt=1, repeat=R))
+        # the flaky test is the only one that is started, the rest is ignored / filtered out
+        out.append(scn([noise[0], noise[1], failing_test(kind, phase, rng, when=("eq", pos))], cli=1, filt=1, repeat=R))
+        # a different failure kind in the other repetitions: every repetition fails, with different records and counts
+        if phase < 3:
+            k2 = rng.choice(KINDS)
+            out.append(scn([failing_test(kind, phase, rng, when=("eq", pos), other=st(k2, rng)), PASS()], cli=1, repeat=R))
+    # two tests failing in different repetitions; with R = 3 the middle (or the last) repetition is the only OK one
+    for (k1, p1), (k2, p2) in zip(KIND_PHASE, KIND_PHASE[5:] + KIND_PHASE[:5]):
+        for (a, b, R) in ((0, 1, 2), (0, 2, 3), (0, 1, 3), (1, 2, 4)):
+            out.append(scn([failing_test(k1, p1, rng, when=("eq", a)), PASS(), failing_test(k2, p2, rng, when=("eq", b))], cli=1, repeat=R))
+    # nothing is ever started (ran nothing in every repetition) although the program text has a flaky test; -r0 repeats twice
+    out.append(scn([failing_test("x", 1, when=("eq", 0), sel=0)], cli=1, filt=1, repeat=2))
+    out.append(scn([failing_test("x", 1, when=("eq", 0), ign=1)], cli=1, repeat=3))
+    for pos in (0, 1, 2):
+        out.append(scn([failing_test("x", 1, when=("eq", pos))], cli=1, repeat=0))
+        out.append(scn([failing_test("j", 2, when=("eq", pos)), PASS()], cli=1, repeat=1))
+        out.append(scn([failing_test("x", 0, when=("eq", pos))], cli=0))
+    out.append(scn([PASS()], cli=1, repeat=0))
+    out.append(scn([], cli=1, repeat=0))
+    # long runs of consecutive flaky failures beyond the 10 jump-buffer slots, in one repetition only
+    for kind in KINDS:
+        R = rng.choice([2, 3])
+        pos = rng.randrange(R)
+        out.append(scn([failing_test(kind, rng.randrange(3), rng, when=("eq", pos)) for _ in range(rng.randrange(12, 20))], cli=1, repeat=R))
+    if tier == "thorough":
+        for R in (1, 2, 3, 4):
+            for op in ("eq", "ne", "lt", "ge"):
+                for k in range(R + 1):
+                    for (kind, phase) in KIND_PHASE:
+                        out.append(scn([failing_test(kind, phase, rng, when=(op, k)), PASS()], cli=1, repeat=R))
     return out
 
 
-def rand_test(rng, pfail, allow_throw=True, pign=0.1, pout=0.1):
+def rand_base(rng, pfail, line, allow_throw=True):
+    if rng.random() < pfail:
+        return st(rng.choice(KINDS if allow_throw else KINDS[:2]), rng, line)
+    return rng.choice([":n", ":c", ":c"])
+
+
+def rand_phase(rng, pfail, line, allow_throw=True, prep=0.0):
+    n = rng.choice([0, 1, 1, 2, 2, 3, 4, 5])
+    out = []
+    for _ in range(n):
+        if rng.random() < prep:
+            a = rand_base(rng, max(pfail, 0.6), line, allow_throw)
+            out.append(rif(rng.choice(["eq", "eq", "ne", "lt", "ge"]), rng.randrange(4), a, rand_base(rng, pfail * 0.3, line, allow_throw)))
+        else:
+            out.append(rand_base(rng, pfail, line, allow_throw))
+    return out
+
+
+def rand_lines(rng, choices, prep):
+    return [(rline(rng.choice(["eq", "ne", "lt", "ge"]), rng.randrange(4), rng.randrange(1, 50)) if rng.random() < prep else rng.randrange(1, 50))
+            for _ in range(rng.choice(choices))]
+
+
+def rand_test(rng, pfail, allow_throw=True, pign=0.1, pout=0.1, prep=0.0):
     line = rng.choice([1, 20, 100, 4000])
     return test(ign=int(rng.random() < pign), sel=int(rng.random() >= pout), line=line,
-                setup=rand_phase(rng, pfail * 0.6, line, allow_throw), body=rand_phase(rng, pfail, line, allow_throw),
-                teardown=rand_phase(rng, pfail * 0.6, line, allow_throw),
-                pre=[rng.randrange(1, 50) for _ in range(rng.choice([0] * 8 + [1, 2]))],
-                post=[rng.randrange(1, 50) for _ in range(rng.choice([0] * 8 + [1, 3]))])
+                setup=rand_phase(rng, pfail * 0.6, line, allow_throw, prep * 0.6), body=rand_phase(rng, pfail, line, allow_throw, prep),
+                teardown=rand_phase(rng, pfail * 0.6, line, allow_throw, prep * 0.6),
+                pre=rand_lines(rng, [0] * 8 + [1, 2], prep * 3), post=rand_lines(rng, [0] * 8 + [1, 3], prep * 3))
 
 
 def generate(tier, rng):
@@ -120,6 +210,7 @@ def generate(tier, rng):
         out.append(scn([t] * 12, cli=rng.randrange(2)))
         t = test(setup=[":c"], body=[st(k1), ":c"], teardown=[":n", st(k2)])
         out.append(scn([t] * 12, cli=rng.randrange(2)))
+    out += rep_dependent(tier, rng)
     # random programs
     n = 260 if tier == "quick" else 12000
     for _ in range(n):
@@ -127,9 +218,14 @@ def generate(tier, rng):
         pfail = rng.choice([0.0, 0.05, 0.15, 0.3, 0.6, 0.9])
         allow_throw = rng.random() < 0.6
         filt = int(rng.random() < 0.35)
-        tests = [rand_test(rng, pfail, allow_throw, pign=rng.choice([0, 0.1, 0.5]), pout=rng.choice([0, 0.1, 0.5, 1.0]) if filt else 0.1) for _ in range(nt)]
         cli = int(rng.random() < 0.6)
-        out.append(scn(tests, cli=cli, filt=filt, runign=int(rng.random() < 0.3), repeat=rng.choice([1, 1, 2, 3, 4]) if cli else 1))
+        repeat = rng.choice([1, 1, 2, 3, 4, 0]) if cli else 1
+        # with several repetitions: few tests with static state, so that some repetitions are OK and others are not
+        prep = rng.choice([0, 0.05, 0.2, 0.5]) if repeat != 1 else rng.choice([0, 0, 0.2])
+        if prep and rng.random() < 0.6:
+            nt = rng.choice([1, 2, 3, 5]); pfail = rng.choice([0.0, 0.0, 0.05])
+        tests = [rand_test(rng, pfail, allow_throw, pign=rng.choice([0, 0.1, 0.5]), pout=rng.choice([0, 0.1, 0.5, 1.0]) if filt else 0.1, prep=prep) for _ in range(nt)]
+        out.append(scn(tests, cli=cli, filt=filt, runign=int(rng.random() < 0.3), repeat=repeat))
     if tier == "thorough":
         # every single test with phases of length <= 2 over a reduced statement alphabet
         alpha = [":c", ":x 0 69", ":j 1 3", ":s", ":o"]
@@ -156,47 +252,108 @@ def applies(s, flavour):
 
 
 def nontrivial(s):
-    t = _toks(s)
-    return any(x in t for x in (":x", ":j", ":s", ":o")) or " 1 7 " in s or " 1 9" in s
+    cfg, tests = parse(s)
+    return any(_fails(t) for t in tests)
+
+
+OPS = {"eq": lambda r, k: r == k, "ne": lambda r, k: r != k, "lt": lambda r, k: r < k, "ge": lambda r, k: r >= k}
 
 
 def parse(s):
     t = _toks(s)
     cfg = [int(x, 16) for x in t[:5]]
-    i = 5
-    nt = int(t[i], 16); i += 1
+    pos = [5]
+
+    def nxt():
+        pos[0] += 1
+        return t[pos[0] - 1]
+
+    def base():
+        k = nxt()
+        if k in (":x", ":j"):
+            return (k, int(nxt(), 16), int(nxt(), 16))
+        return (k,)
+
+    def cond():
+        op = nxt()[1:]
+        return op, int(nxt(), 16)
+
+    def stmt():
+        if t[pos[0]] == ":r":
+            nxt(); op, k = cond()
+            return (":r", op, k, base(), base())
+        return base()
+
+    def pline():
+        if t[pos[0]] == ":r":
+            nxt(); op, k = cond()
+            return (":r", op, k, int(nxt(), 16))
+        return int(nxt(), 16)
+
+    nt = int(nxt(), 16)
     tests = []
     for _ in range(nt):
-        ign, sel, line = int(t[i], 16), int(t[i + 1], 16), int(t[i + 2], 16); i += 3
-        ph = []
-        for _p in range(3):
-            n = int(t[i], 16); i += 1
-            l = []
-            for _k in range(n):
-                k = t[i]; i += 1
-                if k in (":x", ":j"):
-                    l.append((k, int(t[i], 16), int(t[i + 1], 16))); i += 2
-                else:
-                    l.append((k,))
-            ph.append(l)
-        pp = []
-        for _p in range(2):
-            n = int(t[i], 16); i += 1
-            pp.append([int(x, 16) for x in t[i:i + n]]); i += n
+        ign, sel, line = int(nxt(), 16), int(nxt(), 16), int(nxt(), 16)
+        ph = [[stmt() for _k in range(int(nxt(), 16))] for _p in range(3)]
+        pp = [[pline() for _k in range(int(nxt(), 16))] for _p in range(2)]
         tests.append(dict(ign=ign, sel=sel, line=line, ph=ph, pre=pp[0], post=pp[1]))
     return cfg, tests
 
 
 def unparse(cfg, tests):
-    def stok(x):
+    def btok(x):
         return x[0] if len(x) == 1 else "%s %x %x" % x
+
+    def stok(x):
+        return rif(x[1], x[2], btok(x[3]), btok(x[4])) if x[0] == ":r" else btok(x)
+
+    def ptok(x):
+        return rline(x[1], x[2], x[3]) if isinstance(x, tuple) else x
     return scn([test(t["ign"], t["sel"], t["line"], [stok(x) for x in t["ph"][0]], [stok(x) for x in t["ph"][1]],
-                     [stok(x) for x in t["ph"][2]], t["pre"], t["post"]) for t in tests],
+                     [stok(x) for x in t["ph"][2]], [ptok(x) for x in t["pre"]], [ptok(x) for x in t["post"]]) for t in tests],
                cli=cfg[0], rethrow=cfg[1], filt=cfg[2], runign=cfg[3], repeat=cfg[4])
 
 
+def _bases(x):
+    return [x[3], x[4]] if x[0] == ":r" else [x]
+
+
 def _fails(t):
-    return any(x[0] in (":x", ":j", ":s", ":o") for p in t["ph"] for x in p) or t["pre"] or t["post"]
+    return any(b[0] in (":x", ":j", ":s", ":o") for p in t["ph"] for x in p for b in _bases(x)) or t["pre"] or t["post"]
+
+
+def _dependent(t):
+    return any(x[0] == ":r" for p in t["ph"] for x in p) or any(isinstance(x, tuple) for x in t["pre"] + t["post"])
+
+
+def at_rep(t, r):
+    """the test as it behaves in repetition r (independent python reading of the scenario language)"""
+    ph = [[(x[3] if OPS[x[1]](r, x[2]) else x[4]) if x[0] == ":r" else x for x in p] for p in t["ph"]]
+    lines = lambda l: [(x[3] if isinstance(x, tuple) else x) for x in l if not isinstance(x, tuple) or OPS[x[1]](r, x[2])]
+    return dict(t, ph=ph, pre=lines(t["pre"]), post=lines(t["post"]))
+
+
+def n_reps(cfg):
+    return (cfg[4] if cfg[4] else 2) if cfg[0] else 1
+
+
+def rep_outcomes(cfg, tests):
+    """per repetition: True = the repetition is OK (no failure, and at least one test ran or was ignored)"""
+    res = []
+    for r in range(n_reps(cfg)):
+        failed = False; counted = 0
+        for t0 in tests:
+            t = at_rep(t0, r)
+            if cfg[2] and not t["sel"]:
+                continue
+            counted += 1
+            if t["ign"] and not cfg[3]:
+                continue
+            stops = lambda p: any(x[0] not in (":n", ":c") for x in p)
+            if t["pre"] or t["post"] or stops(t["ph"][0]) or stops(t["ph"][2]) or (not stops(t["ph"][0]) and stops(t["ph"][1])):
+                failed = True
+        res.append(not failed and counted > 0)
+    return res
 
 
 def classify(s):
@@ -215,11 +372,49 @@ def classify(s):
     names = {":x": "cxx-check", ":j": "c-check", ":s": "std-exception", ":o": "foreign-exception"}
     for pi, pn in enumerate(("setup", "body", "teardown")):
         for k, kn in names.items():
-            if any(x[0] == k for t in tests for x in t["ph"][pi]):
+            if any(b[0] == k for t in tests for x in t["ph"][pi] for b in _bases(x)):
                 lab.append("%s-in-%s" % (kn, pn))
     if any(t["pre"] for t in tests): lab.append("plugin-pre-failure")
     if any(t["post"] for t in tests): lab.append("plugin-post-failure")
+    if any(_dependent(t) for t in tests):
+        lab.append("repetition-dependent")
+    oks = rep_outcomes(cfg, tests)
+    if len(oks) > 1:
+        if all(oks): lab.append("repetitions=all-ok")
+        elif not any(oks): lab.append("repetitions=none-ok")
+        else:
+            lab.append("repetitions=mixed")
+            bad = [i for i, o in enumerate(oks) if not o]
+            if bad == [0]: lab.append("only-first-repetition-fails")
+            elif bad == [len(oks) - 1]: lab.append("only-last-repetition-fails")
+            elif len(bad) == 1: lab.append("only-a-middle-repetition-fails")
+            if oks[-1]: lab.append("last-repetition-ok-after-a-failing-one")
+            if oks[0]: lab.append("first-repetition-ok-before-a-failing-one")
     return lab
+
+
+def extra_oracle(s, o, flavour):
+    """third opinion on the exit-value clause, from the printed summaries alone and from a python reading of the program:
+    the returned value is zero iff every repetition's summary reads OK iff every repetition of the program is OK"""
+    cfg, tests = parse(s)
+    if not cfg[0] or cfg[1] or o.startswith("!") or o == "skip":
+        return None
+    try:
+        ob = parse_obs(o)
+    except Exception:
+        return None
+    if ob["escaped"] or ob["ret"] == "~":
+        return None
+    zero = ob["ret"] == "0"
+    printed = [r["sm"] is not None and r["sm"][0] == "1" for r in ob["reps"]]
+    want = rep_outcomes(cfg, tests)
+    if len(printed) != len(want):
+        return "%d repetitions were run, -r%x asks for %d" % (len(printed), cfg[4], len(want))
+    if zero != all(printed):
+        return "returned value %s although the summaries of the repetitions read %s" % (ob["ret"], ["OK" if p else "Errors" for p in printed])
+    if printed != want:
+        return "the summaries read %s, the program demands %s" % (["OK" if p else "Errors" for p in printed], ["OK" if p else "Errors" for p in want])
+    return None
 
 
 def project(o, flavour):
@@ -263,6 +458,12 @@ def signature(s, o):
         return mode + ": current test/result not restored after a test"
     if any(r["sm"] is None for r in ob["reps"]):
         return mode + ": summary missing"
+    if cfg[0] and ob["ret"] != "~":
+        printed = [r["sm"][0] == "1" for r in ob["reps"]]
+        if (ob["ret"] == "0") != all(printed):
+            return mode + ": returned value %s zero although %s" % ("is" if ob["ret"] == "0" else "is not", "a repetition's summary reads Errors" if not all(printed) else "every summary reads OK")
+        if len(printed) == n_reps(cfg) and printed != rep_outcomes(cfg, tests):
+            return mode + ": the summary of a repetition reads OK/Errors against what that repetition did"
     return mode + ": trace, failure records, counts or returned value differ from what the program demands"
 
 
@@ -275,7 +476,22 @@ def shrink(s):
         yield unparse(cfg, tests[n // 2:])
     for i in range(n):
         yield unparse(cfg, tests[:i] + tests[i + 1:])
+    # no static state: a conditional statement / plugin line becomes one of its two behaviours
+    for i, t in enumerate(tests):
+        for p in range(3):
+            for k, x in enumerate(t["ph"][p]):
+                if x[0] == ":r":
+                    for b in (x[3], x[4]):
+                        t2 = dict(t); t2["ph"] = [list(y) for y in t["ph"]]; t2["ph"][p][k] = b
+                        yield unparse(cfg, tests[:i] + [t2] + tests[i + 1:])
+        for key in ("pre", "post"):
+            for k, x in enumerate(t[key]):
+                if isinstance(x, tuple):
+                    t2 = dict(t); t2[key] = t[key][:k] + [x[3]] + t[key][k + 1:]
+                    yield unparse(cfg, tests[:i] + [t2] + tests[i + 1:])
     # simpler configuration
+    if cfg[4] > 2: yield unparse(cfg[:4] + [cfg[4] - 1], tests)
+    if cfg[4] == 0: yield unparse(cfg[:4] + [2], tests)
     if cfg[4] > 1: yield unparse(cfg[:4] + [1], tests)
     if cfg[0]: yield unparse([0] + cfg[1:4] + [1], tests)
     if cfg[3]: yield unparse(cfg[:3] + [0] + cfg[4:], tests)
@@ -289,6 +505,13 @@ def shrink(s):
             if t[key]:
                 t2 = dict(t); t2[key] = t[key][1:]
                 yield unparse(cfg, tests[:i] + [t2] + tests[i + 1:])
+    # earlier repetition numbers in the conditions
+    for i, t in enumerate(tests):
+        for p in range(3):
+            for k, x in enumerate(t["ph"][p]):
+                if x[0] == ":r" and x[2] > 0:
+                    t2 = dict(t); t2["ph"] = [list(y) for y in t["ph"]]; t2["ph"][p][k] = (":r", x[1], x[2] - 1, x[3], x[4])
+                    yield unparse(cfg, tests[:i] + [t2] + tests[i + 1:])
 
 
 LEVEL_TEXT = ("Machine-checked (Coq) theorems over an executable model of the test lifecycle: the jump-buffer bookkeeping of "
